@@ -115,8 +115,15 @@ pub(crate) fn apply(p: &mut RtpsWriterProxy, origin: i64, op: Op, ts: Timestamp)
 ///   I: changes is a valid sorted map, ack_base >= 1, ack_base not in changes
 /// with ack_base and all keys inside the window [origin, origin+W+1].
 fn any_valid_proxy(origin: i64) -> RtpsWriterProxy {
-  use crate::verif_env::CAP;
   let mut p = fresh_proxy(1);
+  make_any_valid(&mut p, origin);
+  p
+}
+
+/// Overwrite the sequence-number state of an existing proxy with an arbitrary valid one
+/// (used by the Reader object harnesses to start from any reachable proxy state).
+pub(crate) fn make_any_valid(p: &mut RtpsWriterProxy, origin: i64) {
+  use crate::verif_env::CAP;
   let len = vk::range_usize(0, CAP);
   let mut keys: [Option<SequenceNumber>; CAP] = [None; CAP];
   let mut vals: [Option<Option<Timestamp>>; CAP] = [None; CAP];
@@ -139,7 +146,19 @@ fn any_valid_proxy(origin: i64) -> RtpsWriterProxy {
   p.ack_base = sn(origin, base_off);
   vk::assume(p.ack_base >= SequenceNumber::new(1));
   vk::assume(!p.changes.contains_key(&p.ack_base));
-  p
+}
+
+/// known-mask of a proxy over SNs 0..n (bit i <=> SN i received or unavailable)
+pub(crate) fn known_mask(p: &RtpsWriterProxy, n: i64) -> u64 {
+  let mut m = 0u64;
+  let mut i = 0;
+  while i < n {
+    if p.should_ignore_change(SequenceNumber::new(i)) {
+      m |= 1u64 << i;
+    }
+    i += 1;
+  }
+  m
 }
 
 fn invariant(p: &RtpsWriterProxy) -> bool {
@@ -247,3 +266,66 @@ fn c01_proxy_sequence_k5() {
   sequence_from_initial(5);
   vk::end();
 }
+
+// ------------------------------------------------------------------ C03: missing_seqnums
+/// From ANY valid proxy state, missing_seqnums(first,last) == the SNs of [first,last] that
+/// are neither received nor declared unavailable, strictly increasing (the ACKNACK code
+/// relies on the order: it takes `.first()` as the set base).
+fn missing_seqnums_step(origin: i64) {
+  let p = any_valid_proxy(origin);
+  vk::assume(i64::from(p.all_ackable_before()) >= origin);
+  let first = vk::range_i64(0, W + 1);
+  let last = vk::range_i64(0, W + 1);
+  vk::assume(origin + first >= 1);
+  let m = p.missing_seqnums(sn(origin, first), sn(origin, last));
+  // one pass over the result: collect it as a bitmask over the window, check the order
+  let mut got: u32 = 0;
+  let mut prev: i64 = -1;
+  let mut gap_between = false;
+  let mut j = 0usize;
+  while j < (W + 3) as usize {
+    if j < m.len() {
+      let off = i64::from(m[j]) - origin;
+      assert!(off >= 0 && off < W + 3, "missing_seqnums returned an SN outside the window");
+      assert!(off > prev, "missing_seqnums not strictly increasing");
+      if prev >= 0 && off - prev >= 2 {
+        gap_between = true;
+      }
+      prev = off;
+      got |= 1u32 << off;
+    }
+    j += 1;
+  }
+  assert!(m.len() <= (W + 3) as usize);
+  let mut expected: u32 = 0;
+  let mut i = 0;
+  while i < W + 3 {
+    if first <= i && i <= last && !p.should_ignore_change(sn(origin, i)) {
+      expected |= 1u32 << i;
+    }
+    i += 1;
+  }
+  assert!(got == expected, "missing_seqnums differs from the unknown SNs in the advertised range");
+  vk_cover!(gap_between, "a known SN between two missing ones");
+  vk_cover!(m.is_empty() && first <= last, "advertised range completely known");
+  core::mem::forget(m);
+}
+
+#[cfg_attr(kani, kani::proof, kani::unwind(11))]
+#[cfg_attr(kani, kani::stub(std::vec::Vec::push, crate::verif_env::stub_vec_push))]
+#[cfg_attr(verif_replay, test)]
+fn c03_missing_seqnums_o0() {
+  vk::begin("c03_missing_seqnums_o0");
+  missing_seqnums_step(0);
+  vk::end();
+}
+#[cfg_attr(kani, kani::proof, kani::unwind(11))]
+#[cfg_attr(kani, kani::stub(std::vec::Vec::push, crate::verif_env::stub_vec_push))]
+#[cfg_attr(verif_replay, test)]
+fn c03_missing_seqnums_o32() {
+  vk::begin("c03_missing_seqnums_o32");
+  missing_seqnums_step((1i64 << 32) - 3);
+  vk::end();
+}
+
+
